@@ -4,7 +4,7 @@
 #            (2 loops, 2 signals, 3 events: one multi-signal, one one-shot) x kinds of the pre-existing disposition,
 #            unbounded number of deliveries (finite state space); seeded-defect configurations must violate.
 #   binding: spec -> code: every depth-4 (thorough: depth-6) script of the sequential model (Gen_Signals) and seeded random long histories
-#            (3 loops, 3 signals, <= 6 events, re-creation, redundant calls) are executed on real loops/threads/signals
+#            (2-8 loops, 3 signals, <= 10 events, re-creation, redundant calls) are executed on real loops/threads/signals
 #            by harness/c04_signals/driver.cpp (delivery via kill / raise on a loop thread / pthread_kill into a polling
 #            loop / handler paused after every pipe write); code -> spec: every recorded line (callbacks per loop thread,
 #            calls of the pre-existing handler, sigaction compared field by field, isEnabled) is validated by TLC
@@ -25,8 +25,9 @@ DEFS = vlib.BASE_DEFS + ["HAVE_EPOLL=1", "HAVE_SELECT=1"]
 ACTIONS = ["OpBegin", "OpStep", "OpEnd", "RaiseBegin", "HandlerOld", "HandlerWrite", "HandlerReturn", "LoopRead"]
 INVS_OF_BUG = [("norestore", "DispositionRestored"), ("handleronly", "DispositionRestored"), ("skipold", "OldHandlerChained"),
                ("skipplain", "OldHandlerChained"), ("firstonly", "EveryEnabledGetsOne"), ("oneshotstays", "OneShotAtMostOnce"),
-               ("keepfd", "CtxConsistent"), ("perloop", "CtxConsistent"), ("liveiter", "EveryEnabledGetsOne")]
-QUICK_BUGS = ("norestore", "skipold", "firstonly", "oneshotstays", "liveiter")
+               ("keepfd", "CtxConsistent"), ("perloop", "CtxConsistent"), ("liveiter", "EveryEnabledGetsOne"),
+               ("cap1", "EveryEnabledGetsOne")]
+QUICK_BUGS = ("norestore", "skipold", "firstonly", "oneshotstays", "liveiter", "cap1")
 KINDS = ["info", "plain", "ign", "dfl"]
 VIAS = ["main", "self", "async", "step"]
 ENGINES = ["epoll", "select"]
@@ -46,13 +47,26 @@ def decorate(rnd, n, ev, ops):
             "ev": ev, "ops": out}
 
 
-def random_script(rnd, nops):
-    n = rnd.choice([2, 3, 3])
-    nev = rnd.randint(3, 6)
+def random_script(rnd, nops, wide=False):
+    """wide: 5-8 loops, each with (at least) one event on a common signal, so that many loops are subscribed to the same
+    signal at the same time (the handler has to reach every one of them)."""
     ev = []
-    for _ in range(nev):
-        sigs = [s for s in (1, 2, 3) if rnd.random() < 0.5] or [rnd.randint(1, 3)]
-        ev.append({"L": rnd.randint(1, n), "sigs": sigs, "os": rnd.random() < 0.35})
+    if wide:
+        n = rnd.randint(5, 8)
+        s0 = rnd.randint(1, 3)
+        for L in range(1, n + 1):
+            sigs = sorted(set([s0] + [s for s in (1, 2, 3) if rnd.random() < 0.2]))
+            ev.append({"L": L, "sigs": sigs, "os": rnd.random() < 0.2})
+        for _ in range(rnd.randint(0, 10 - n)):
+            sigs = [s for s in (1, 2, 3) if rnd.random() < 0.5] or [s0]
+            ev.append({"L": rnd.randint(1, n), "sigs": sigs, "os": rnd.random() < 0.35})
+        nev = len(ev)
+    else:
+        n = rnd.choice([2, 3, 3])
+        nev = rnd.randint(3, 6)
+        for _ in range(nev):
+            sigs = [s for s in (1, 2, 3) if rnd.random() < 0.5] or [rnd.randint(1, 3)]
+            ev.append({"L": rnd.randint(1, n), "sigs": sigs, "os": rnd.random() < 0.35})
     kind = [rnd.choice(KINDS) for _ in range(3)]
     st = ["off"] * nev
     ops = []
@@ -71,10 +85,10 @@ def random_script(rnd, nops):
         elif st[e] == "absent":
             if r < 0.8:
                 ops.append({"o": "create", "a": e + 1}); st[e] = "off"
-        elif r < 0.62:
+        elif r < (0.72 if wide else 0.62):
             if st[e] == "off" or rnd.random() < 0.15:       # sometimes enable() an enabled event
                 ops.append({"o": "enable", "a": e + 1}); st[e] = "on"
-        elif r < 0.88:
+        elif r < (0.92 if wide else 0.88):
             if st[e] == "on" or rnd.random() < 0.15:        # sometimes disable() a disabled event
                 ops.append({"o": "disable", "a": e + 1}); st[e] = "off"
         else:
@@ -82,6 +96,29 @@ def random_script(rnd, nops):
     sc = decorate(rnd, n, ev, ops)
     sc["kind"] = kind
     return sc
+
+
+def wide_scripts(rnd):
+    """Fixed histories with 5..8 loops (own threads) all subscribed to one signal: everybody enables (both orders), one
+    delivery per path, half of the loops leave, delivery, they come back, delivery, the others leave, delivery."""
+    out = []
+    for n in (5, 6, 7, 8):
+        for s0 in (1, 2, 3):
+            for rev in (False, True):
+                ev = [{"L": L, "sigs": [s0], "os": False} for L in range(1, n + 1)]
+                ev.append({"L": n, "sigs": sorted({s0, s0 % 3 + 1}), "os": True})        # a multi-signal one-shot on the last loop
+                order = list(range(1, n + 2))
+                if rev:
+                    order.reverse()
+                half, rest = order[:n // 2], order[n // 2:]
+                ops = [{"o": "enable", "a": e} for e in order] + [{"o": "raise", "a": s0}] * 2
+                ops += [{"o": "disable", "a": e} for e in half] + [{"o": "raise", "a": s0}]
+                ops += [{"o": "enable", "a": e} for e in half] + [{"o": "raise", "a": s0}]
+                ops += [{"o": "destroy", "a": e} for e in rest] + [{"o": "raise", "a": s0}]
+                sc = decorate(rnd, n, ev, ops)
+                sc["kind"][s0 - 1] = rnd.choice(["info", "plain", "ign"])                # every raise is really sent
+                out.append(sc)
+    return out
 
 
 def script_of_trace(lines):
@@ -138,6 +175,8 @@ def run_scripts(ctx, exe, scripts, tag, what, replayed):
             for sc in shards[i]:
                 f.write(json.dumps(sc) + "\n")
         rc, out = vlib.run_harness(exe, [sp, tp], timeout=1500)
+        if os.path.exists(tp) and hasattr(vlib, "sanitize_trace"):
+            vlib.sanitize_trace(tp)
         r = {"i": i, "rc": rc, "out": out, "trace": tp, "fault": None, "ok": False, "info": {}, "infra": None, "states": 0, "gen": 0}
         if rc in (3, 124):
             r["infra"] = "driver watchdog/timeout (%s shard %d rc=%d)\n%s" % (tag, i, rc, out[-1500:])
@@ -249,10 +288,13 @@ def run(ctx):
     if ok:
         lines, _ = execution_around(tr, 2)
         ctx.sample({"kind": "recorded trace of one replayed behaviour", "events": [json.loads(x) for x in lines[:14]]})
-    # 3. code -> spec: long random histories, 2-3 loops, 3 signals, up to 6 events
+    # 3. code -> spec: long random histories: 2-3 loops, 3 signals, up to 6 events; and 5-8 loops (up to 10 events) that
+    #    share a signal, plus 24 fixed histories of that shape
     nexec, nops = (1000, 30) if ctx.quick() else (12000, 60)
-    rscripts = [random_script(rnd, nops) for _ in range(nexec)]
-    ok, tr = run_scripts(ctx, exe, rscripts, "random", "%d random histories of %d steps" % (nexec, nops), False)
+    nwide = nexec // 4                                            # a quarter of them with 5-8 loops sharing a signal
+    rscripts = wide_scripts(rnd) + [random_script(rnd, nops, wide=i < nwide) for i in range(nexec)]
+    rnd.shuffle(rscripts)                                         # spread the expensive ones over the shards
+    ok, tr = run_scripts(ctx, exe, rscripts, "random", "%d random histories of %d steps" % (len(rscripts), nops), False)
     if ok:
         lines, _ = execution_around(tr, 2)
         ctx.sample({"kind": "recorded random history (first events)", "events": [json.loads(x) for x in lines[:10]]})
@@ -267,6 +309,6 @@ def run(ctx):
     ]
     ctx.uncovered = [
         "subscription changes made from inside a signal callback or concurrently with a delivery (outside the statement's quantifier)",
-        "more than 3 loops / 3 signals on the real code; kernel merging of pending standard signals (excluded by the statement)",
+        "more than 8 loops / 3 signals on the real code; kernel merging of pending standard signals (excluded by the statement)",
         "sa_restorer and SA_RESTORER are compared only as part of sa_flags as returned by sigaction()",
     ]
